@@ -342,4 +342,64 @@ example : adjust (10 ^ 20) (10 ^ 18) ⟨⟨995, 2⟩, ⟨1005, 2⟩⟩ (some ⟨
 example : adjusted (10 ^ 20) (10 ^ 12) ⟨⟨45, 0⟩, ⟨60, 0⟩⟩ (some ⟨50, 0⟩) = ⟨⟨50, 0⟩, ⟨50, 0⟩⟩ := by decide
 example : checkDeviation (10 ^ 20) (10 ^ 12) ⟨⟨50, 0⟩, ⟨50, 0⟩⟩ (some ⟨50, 0⟩) = .ok false := by rfl
 
+/-! ### Non-vacuity added by the audit (B6): the theorems instantiated on concrete inputs -/
+-- the ingredients of the running example: reference 1000.00, deviation 1 % = 10.00
+example : refUnit ⟨⟨900, 2⟩, ⟨1200, 2⟩⟩ (some ⟨1000, 2⟩) = some 100000 ∧
+    applyFactor 128 (10 ^ 20) 100000 (10 ^ 18) = some 1000 := by decide
+-- `adjust_spec` / `adjust_in_band` / `adjust_keeps_multipliers`: both bounds are clamped
+example : ∃ r dev, refUnit ⟨⟨900, 2⟩, ⟨1200, 2⟩⟩ (some ⟨1000, 2⟩) = some r ∧ applyFactor 128 (10 ^ 20) r (10 ^ 18) = some dev ∧
+    (⟨1010, 2⟩ : Dec).unit ≤ r + dev ∧ r ≤ (⟨990, 2⟩ : Dec).unit + dev :=
+  adjust_in_band (U := 10 ^ 20) (f := 10 ^ 18) (p := ⟨⟨900, 2⟩, ⟨1200, 2⟩⟩) (p' := ⟨⟨990, 2⟩, ⟨1010, 2⟩⟩)
+    (ref := some ⟨1000, 2⟩) (by decide)
+example : (2 : Nat) = 2 ∧ (2 : Nat) = 2 :=
+  adjust_keeps_multipliers (U := 10 ^ 20) (f := 10 ^ 18) (p := ⟨⟨900, 2⟩, ⟨1200, 2⟩⟩) (p' := ⟨⟨990, 2⟩, ⟨1010, 2⟩⟩)
+    (ref := some ⟨1000, 2⟩) (by decide)
+-- only the max is outside (min stays): the `else` branches of `adjust_spec`
+example : adjust (10 ^ 20) (10 ^ 18) ⟨⟨995, 2⟩, ⟨1200, 2⟩⟩ (some ⟨1000, 2⟩) = some ⟨⟨995, 2⟩, ⟨1010, 2⟩⟩ ∧
+    adjust (10 ^ 20) (10 ^ 18) ⟨⟨900, 2⟩, ⟨1005, 2⟩⟩ (some ⟨1000, 2⟩) = some ⟨⟨990, 2⟩, ⟨1005, 2⟩⟩ := by decide
+-- rounding to the bound's own precision: band [989.505, 1009.495] at 0 decimals of the bound ⇒ [990, 1009]
+example : adjust (10 ^ 20) (10 ^ 18) ⟨⟨9, 4⟩, ⟨12, 4⟩⟩ (some ⟨99950, 0⟩) = some ⟨⟨10, 4⟩, ⟨10, 4⟩⟩ := by decide
+-- `accepted_after_adjust`: both hypotheses at once
+example : ∃ r dev, refUnit ⟨⟨900, 2⟩, ⟨1200, 2⟩⟩ (some ⟨1000, 2⟩) = some r ∧ applyFactor 128 (10 ^ 20) r (10 ^ 18) = some dev ∧
+    0 < (⟨990, 2⟩ : Dec).unit ∧ r ≤ (⟨990, 2⟩ : Dec).unit + dev ∧ (⟨990, 2⟩ : Dec).unit ≤ (⟨1010, 2⟩ : Dec).unit ∧
+    (⟨1010, 2⟩ : Dec).unit ≤ r + dev :=
+  accepted_after_adjust (U := 10 ^ 20) (f := 10 ^ 18) (p := ⟨⟨900, 2⟩, ⟨1200, 2⟩⟩) (p' := ⟨⟨990, 2⟩, ⟨1010, 2⟩⟩)
+    (ref := some ⟨1000, 2⟩) (by decide) (by decide)
+-- `fromPriceOk_iff` / `never_accept_inverted`: the three ways of being rejected
+example : fromPriceOk ⟨⟨990, 2⟩, ⟨1010, 3⟩⟩ = false ∧ fromPriceOk ⟨⟨0, 2⟩, ⟨1010, 2⟩⟩ = false ∧
+    fromPriceOk ⟨⟨1011, 2⟩, ⟨1010, 2⟩⟩ = false := by decide
+example : fromPriceOk ⟨⟨1001, 2⟩, ⟨1000, 2⟩⟩ = false := never_accept_inverted _ (by decide)
+-- `adjust_none_in_band`: all four hypotheses with the explicit `r`, `dev`
+example : adjust (10 ^ 20) (10 ^ 18) ⟨⟨995, 2⟩, ⟨1005, 2⟩⟩ (some ⟨1000, 2⟩) = none :=
+  adjust_none_in_band (U := 10 ^ 20) (f := 10 ^ 18) (p := ⟨⟨995, 2⟩, ⟨1005, 2⟩⟩) (ref := some ⟨1000, 2⟩)
+    (r := 100000) (dev := 1000) (by decide) (by decide) (by decide) (by decide)
+-- `adjust_none_cases`: the in-band disjunct and the `AdjFail` disjunct are both inhabited
+example : (absDiff (⟨1005, 2⟩ : Dec).unit 100000 ≤ 1000 ∧ absDiff (⟨995, 2⟩ : Dec).unit 100000 ≤ 1000) ∨
+    AdjFail ⟨⟨995, 2⟩, ⟨1005, 2⟩⟩ 100000 1000 :=
+  adjust_none_cases (U := 10 ^ 20) (f := 10 ^ 18) (p := ⟨⟨995, 2⟩, ⟨1005, 2⟩⟩) (ref := some ⟨1000, 2⟩)
+    (r := 100000) (dev := 1000) (by decide) (by decide) (by decide)
+example : adjust (10 ^ 20) (10 ^ 9) ⟨⟨45, 0⟩, ⟨60, 0⟩⟩ (some ⟨5, 10⟩) = none ∧
+    AdjFail ⟨⟨45, 0⟩, ⟨60, 0⟩⟩ 50000000000 0 :=
+  ⟨by decide, Or.inl ⟨by decide, Or.inr (by decide)⟩⟩
+-- `Accepted` is inhabited in all three regimes: clamped (dev > 0), left alone (dev > 0), clamped with dev = 0
+example : Accepted (10 ^ 20) (10 ^ 18) ⟨⟨900, 2⟩, ⟨1200, 2⟩⟩ (some ⟨1000, 2⟩) := ⟨⟨true, by rfl⟩, by decide⟩
+example : Accepted (10 ^ 20) (10 ^ 18) ⟨⟨995, 2⟩, ⟨1005, 2⟩⟩ (some ⟨1000, 2⟩) := ⟨⟨true, by rfl⟩, by decide⟩
+example : Accepted (10 ^ 20) (10 ^ 12) ⟨⟨45, 0⟩, ⟨60, 0⟩⟩ (some ⟨50, 0⟩) := ⟨⟨false, by rfl⟩, by decide⟩
+-- ... while the clamp-then-validate pipeline rejects what the clamp inverted, and an un-clampable outlier
+example : ¬ Accepted (10 ^ 20) (10 ^ 16) ⟨⟨1000, 2⟩, ⟨1001, 2⟩⟩ none := fun h => by
+  have : fromPriceOk (adjusted (10 ^ 20) (10 ^ 16) ⟨⟨1000, 2⟩, ⟨1001, 2⟩⟩ none) = false := by decide
+  rw [h.2] at this; cases this
+-- `e2e_accepted_in_band` instantiated in the clamped regime
+example : ∃ r dev, refUnit ⟨⟨900, 2⟩, ⟨1200, 2⟩⟩ (some ⟨1000, 2⟩) = some r ∧
+    applyFactor 128 (10 ^ 20) r (10 ^ 18) = some dev ∧
+    0 < (adjusted (10 ^ 20) (10 ^ 18) ⟨⟨900, 2⟩, ⟨1200, 2⟩⟩ (some ⟨1000, 2⟩)).min.unit :=
+  have ⟨r, dev, h1, h2, h3, _⟩ := e2e_accepted_in_band (U := 10 ^ 20) (f := 10 ^ 18) (p := ⟨⟨900, 2⟩, ⟨1200, 2⟩⟩)
+    (ref := some ⟨1000, 2⟩) ⟨⟨true, by rfl⟩, by decide⟩
+  ⟨r, dev, h1, h2, h3⟩
+-- `e2e_dev_zero_equals_reference`: the minimum configurable factor, reference 50 (< 10^8 ⇒ dev = 0)
+example : (adjusted (10 ^ 20) (10 ^ 12) ⟨⟨45, 0⟩, ⟨60, 0⟩⟩ (some ⟨50, 0⟩)).min.unit = 50 ∧
+    (adjusted (10 ^ 20) (10 ^ 12) ⟨⟨45, 0⟩, ⟨60, 0⟩⟩ (some ⟨50, 0⟩)).max.unit = 50 :=
+  e2e_dev_zero_equals_reference (f := 10 ^ 12) (p := ⟨⟨45, 0⟩, ⟨60, 0⟩⟩) (ref := some ⟨50, 0⟩) (r := 50)
+    (by decide) (by decide) (by decide) ⟨⟨false, by rfl⟩, by decide⟩
+
 end Gmx.C29
